@@ -97,9 +97,9 @@ func govHeavyProfile() *Profile {
 // txs priced at the old and around the new values.
 func gasGovProfile() *Profile {
 	p := defaultProfile()
-	p.MinBlocks, p.MaxBlocks = 10, 28
+	p.MinBlocks, p.MaxBlocks = 14, 30
 	p.MaxTxs = 8
-	p.PFault = 16
+	p.PFault = 20
 	p.GasFaults = true
 	p.GovFocus = "gasPrice,minTrxGas"
 	p.W["propose"], p.W["vote"] = 14, 20
@@ -417,7 +417,7 @@ func (s *GenSource) StartBlock(w *World) *Block {
 		// fresh valid transactions that only ever reach the mempool check
 		saveFault, saveW := s.P.PFault, s.P.W
 		s.P.PFault = 0
-		s.P.W = map[string]int{"transfer": 4, "stake": 8, "unstake": 5, "withdraw": 3, "propose": 3, "vote": 3, "setdoc": 1, "deploy": 1, "call": 1}
+		s.P.W = map[string]int{"transfer": 4, "stake": 8, "unstake": 5, "withdraw": 3, "propose": 3, "vote": 6, "setdoc": 1, "deploy": 1, "call": 1}
 		w.curH = h // txs are built for the coming block
 		for i, n := 0, unif(t, 4, "nFresh"); i < n; i++ {
 			raw, _ := s.genTx(w, b)
